@@ -86,6 +86,18 @@ CLAIMED = {
             "Tie: every argv up to length 4 (5) over 11 tokens through the real parser against a reference parser of the documented grammar; all pairs of 11 paths through "
             "get_common_parent_path_length; the real main() on every sequence of 1-3 roots with random mount tables.",
             NOTE + "Not modelled: octal escapes in /proc/self/mounts; realpath is scripted.", "grammar equivalence + path lemmas; exhaustive differential correspondence + reference parser"),
+    "C13": ("Partial. Theorems carry the index arithmetic of the parsers: the project-name scan stays inside the path under the guard handle_timeout checks, the relative path offset never exceeds the length, "
+            "decoding a queue link yields a suffix of it, the ELF interpreter string is a NUL-free proper prefix of a fully read buffer, the command-line parser is total. Memory safety of the C itself is "
+            "witnessed on every run by rebuilding the harness with AddressSanitizer + UBSan and running hostile ELF images, hand-written queue directories, paths up to PATH_MAX and every short argv; "
+            "any report or abort is a violation, and the processed-or-rejected outcome is compared with the model.",
+            NOTE + "Not expressible in the model: lifetimes, frees, libc contracts. Inputs whose outcome depends on the machine (lseek beyond the file system's maximum offset, malloc of gigabytes, paths with '.'/'..' components) run under the sanitizers without model comparison.",
+            "bounds lemmas + sanitizer runs + differential correspondence"),
+    "C16": ("The configuration table is TRANSLATED from lua/config.lua.md on every run (tools/gen_config.py, closed grammar, refuses anything else) and the theorems are re-checked against it: documented "
+            "defaults (hand-written from the documentation / config-static.c), well-scopedness of defaults, derived defaults follow prefix and debounce, assigned values verbatim, ill-typed value => load fails "
+            "(generic in the table). Tie: the real load_config with liblua 5.3 on ~800 generated configuration files (every setting x every value class, key operations, random subsets) against the model and a "
+            "restatement of the documentation; handler histories with the watched configuration file rewritten at every position (valid / invalid).",
+            NOTE + "Configuration files are finite lists of assignments of literals (arbitrary Lua is out of scope). Reload atomicity is tied by correspondence + monitor, not by a theorem.",
+            "translation of the declarative source + interpreter proofs; differential correspondence"),
 }
 ENGINE = "coq-model+correspondence"
 
